@@ -110,12 +110,16 @@ def shard(ctx):
             if s['tie'] is None:
                 s['tie'] = list(ids)
             t1, t2 = gen.render(s), gen.render(renumber(s, perm))
-            r1 = do_count(t1, opts, budget=b)
+            both_first = rng.random() < 0.15
+            if both_first:
+                # a caller comparing two presentations may build both elections before counting either
+                ctx.count('pairs_with_both_elections_built_first')
+            r1 = do_count(t1, opts, budget=b, construct_also=t2 if both_first else None)
             near = near_tolerance(r1.cfg) if r1.cfg else False
-            r2 = do_count(t2, opts, budget=b)
+            r2 = do_count(t2, opts, budget=b, construct_also=t1 if both_first else None)
             near = near or (near_tolerance(r2.cfg) if r2.cfg else False)
             ctx.evaluated()
-            case = dict(kind='renumber', blt=t1, blt2=t2, options=opts, perm=perm)
+            case = dict(kind='renumber', blt=t1, blt2=t2, options=opts, perm=perm, both_first=both_first)
             if r1.timed_out or r2.timed_out:
                 ctx.count('not_explored:budget')
                 continue
@@ -165,10 +169,13 @@ def shard(ctx):
             if sD['nc'] < 1 or not sD['lines']:
                 continue
             t1, t2 = gen.render(sW), gen.render(sD)
-            r1 = do_count(t1, opts, budget=b)
-            r2 = do_count(t2, opts, budget=b)
+            both_first = rng.random() < 0.15
+            if both_first:
+                ctx.count('pairs_with_both_elections_built_first')
+            r1 = do_count(t1, opts, budget=b, construct_also=t2 if both_first else None)
+            r2 = do_count(t2, opts, budget=b, construct_also=t1 if both_first else None)
             ctx.evaluated()
-            case = dict(kind='withdrawn', blt=t1, blt2=t2, options=opts, withdrawn=sorted(W))
+            case = dict(kind='withdrawn', blt=t1, blt2=t2, options=opts, withdrawn=sorted(W), both_first=both_first)
             if r1.timed_out or r2.timed_out:
                 ctx.count('not_explored:budget')
                 continue
@@ -209,8 +216,9 @@ def _has_batch(run):
 
 
 def replay(case):
-    r1 = do_count(case['blt'], case['options'], budget=60)
-    r2 = do_count(case['blt2'], case['options'], budget=60)
+    bf = case.get('both_first')
+    r1 = do_count(case['blt'], case['options'], budget=60, construct_also=case['blt2'] if bf else None)
+    r2 = do_count(case['blt2'], case['options'], budget=60, construct_also=case['blt'] if bf else None)
     if r1.timed_out or r2.timed_out:
         return []
     if (r1.error is None) != (r2.error is None):
